@@ -1,7 +1,7 @@
 //! C14 - sub-ontologies keep shortest leaf-root chains, induced links, phenotype links.
 
 use super::c01::self_consistent;
-use super::common::family_e;
+use super::common::family_e_opt;
 use crate::ctx::{guard, Ctx};
 use crate::drive;
 use crate::encode::{self, EncOpts};
@@ -142,6 +142,44 @@ pub fn check_one(ctx: &mut Ctx, src: &Ontology, r: &RefOnt, mode: Mode, up: &BTr
     ctx.outcome(obs.fingerprint());
 }
 
+fn large(ctx: &mut Ctx) {
+    let family = crate::props::common::large_family();
+    ctx.space("large-structured/roots-x-leaves", &format!("{} large shapes (records on the last terms, the middle and the top) x roots {{HP:1, HP:118, middle}} x leaf collections {{last}}, {{last, middle}}, {{last two}}, {{every 9th term}}, {{last, last}}", family.len()));
+    for (base, what) in &family {
+        if !ctx.take() {
+            continue;
+        }
+        ctx.state();
+        ctx.nontrivial();
+        let mut f = base.clone();
+        let ids: Vec<u32> = f.terms.iter().map(|t| t.id).collect();
+        let n = ids.len();
+        f.anns.push(Facts::ann(crate::model::Kind::Gene, 11, "GENE1", Some(ids[n - 1])));
+        f.anns.push(Facts::ann(crate::model::Kind::Gene, 11, "GENE1", Some(ids[n / 2])));
+        f.anns.push(Facts::ann(crate::model::Kind::Gene, 22, "GENE2", Some(ids[0])));
+        f.anns.push(Facts::ann(crate::model::Kind::Omim, 600_001, "Disease one", Some(ids[n - 2])));
+        f.anns.push(Facts::ann(crate::model::Kind::Orpha, 77, "Orpha one", Some(ids[n / 2])));
+        f.anns.push(Facts::ann(crate::model::Kind::Orpha, 78, "Orpha two", Some(ids[1])));
+        let r = RefOnt::derive(&f);
+        let up: BTreeMap<u32, BTreeMap<u32, usize>> = ids.iter().map(|i| (*i, r.up_distances(*i))).collect();
+        ctx.transitions(f.n_steps());
+        let Ok(src) = drive::build(&f, Mode::Minimal) else {
+            ctx.violation("Builder", "construction fails on valid facts", json!({"shape": what}));
+            continue;
+        };
+        let last = ids[n - 1];
+        let mid = ids[n / 2];
+        let collections: Vec<Vec<u32>> = vec![vec![last], vec![last, mid], vec![ids[n - 1], ids[n - 2]], ids.iter().copied().step_by(9).collect(), vec![last, last]];
+        for root in [ids[0], ids[1], mid] {
+            for leaves in &collections {
+                let case = || json!({"shape": what, "n_terms": n, "root": root, "leaves": leaves});
+                check_one(ctx, &src, &r, Mode::Minimal, &up, root, leaves, &case, None);
+            }
+        }
+        ctx.sample(|| json!({"shape": what, "n_terms": n}));
+    }
+}
+
 pub fn run(ctx: &mut Ctx) {
     let thorough = ctx.tier.thorough();
     ctx.rule = "case = one source ontology of family E (built with defaults from bytes, and without flags also build_minimal via the Builder) with every root and every leaf collection in the bound (all single leaves, all ordered pairs incl. duplicates; all subsets when n <= 5; thorough: all multisets of size 3); distinct by construction; non-trivial = source with a term reachable from a leaf by chains of different length or with a record on a modifier term".into();
@@ -150,7 +188,7 @@ pub fn run(ctx: &mut Ctx) {
         "the result's release version and categories are not specified and not compared".into(),
     ];
     let kmax = if thorough { 4 } else { 3 };
-    let family = family_e(1, kmax, &[200, 7, 300, 150]);
+    let family = family_e_opt(1, kmax, &[200, 7, 300, 150], true);
     let stride = if thorough { 1 } else { 2 };
     ctx.space("family-E/roots-x-leaf-collections", &format!("{} source ontologies (every {stride}th of family E, k <= {kmax}) x every root x leaf collections", family.len().div_ceil(stride)));
     for (idx, (f, what)) in family.iter().enumerate() {
@@ -240,4 +278,5 @@ pub fn run(ctx: &mut Ctx) {
         }
         ctx.sample(|| json!({"family": what, "source": f.to_json(), "roots": n, "leaf_collections": collections.len()}));
     }
+    large(ctx);
 }
